@@ -252,6 +252,22 @@ def exec_call(c):
             return hdr
         return outcome(f, lambda: got), None
 
+    if api == "writer_new":
+        # the Writer OBJECT api: records are handed in one by one by later calls, the file is finished by flush
+        from fastavro.write import Writer
+        bio = io.BytesIO()
+
+        def f():
+            keep["r"] = (Writer(bio, c["schema"], sync_marker=SYNC, **c.get("kw", {})), bio)
+            return None
+        return outcome(f, lambda: "b" + bio.getvalue().hex()), keep.get("r")
+
+    if api == "writer_write":
+        return outcome(lambda: c["writer"][0].write(c["record"])), None
+
+    if api == "writer_flush":
+        return outcome(lambda: c["writer"][0].flush(), lambda: "b" + c["writer"][1].getvalue().hex()), None
+
     if api == "reader_open":
         # readers are lazy: the header is parsed now, the records when the object is consumed (a later call)
         bio = io.BytesIO(c["data"])
@@ -328,7 +344,8 @@ def exec_call(c):
 
 
 EXEMPT_ARGS = ("named_schemas",        # "apart from filling the caller-supplied named-schema dictionary"
-               "reader")               # a lazy reader object handed back for consumption: a stream, not schema/data
+               "reader",               # a lazy reader object handed back for consumption: a stream, not schema/data
+               "writer")               # a Writer object (and its stream)
 OBSERVE_ARGS = ("metadata",)           # O2: neither schema nor data; recorded, not flagged
 
 
@@ -351,7 +368,7 @@ def run_history(calls):
             continue
         rc = resolve(c, slots)
         exempt = {id(rc[k]) for k in EXEMPT_ARGS if rc.get(k) is not None}
-        if "reader" in rc:
+        if "reader" in rc or "writer" in rc:
             pick = None                                 # a live reader object: only the rebuilt-arguments run applies
         else:                                           # (not even tried: pickling caches __slotnames__ on the classes)
             pick = base64.b64encode(pickle.dumps(rc, protocol=4)).decode()
